@@ -1,7 +1,147 @@
-import ZoektModel.C32.Spec
+/-
+C32 — Cleanup never loses an assigned repository.
+
+Statement: periodic cleanup never deletes or trashes the shards of a repository currently assigned to the server
+(unless its shards disagree on the repository name), restores assigned repositories found in the trash, moves every
+unassigned repository out of the searchable index (to the trash or by tombstoning it in a compound shard), and
+permanently deletes trashed shards only once they are older than 24 hours or conflict with an indexed copy.
+Quantifier: all index directories and all assigned sets, over repeated cleanups.
+
+Model: C32/Model.lean (cleanup.go's six phases over abstract directory states).  Lemmas: C32/Lemmas, C32/Phases.
+-/
+import ZoektModel.C32.Phases
 namespace ZoektModel.C32
 
 theorem cleanup_removes_tmps (d : Dir) (a : List Nat) (now : Int) (m : Bool) : (cleanup d a now m).tmps = 0 := by
   simp [cleanup]
+
+/-- the shards in the trash are simple: a trashed file lists at most one repository alive (cleanup itself never moves
+    a compound shard into the trash — `moveAll` deletes it instead) -/
+def TrashSimple (d : Dir) : Prop := ∀ f ∈ d.trash, ∀ a b, aliveIn f a = true → aliveIn f b = true → a = b
+
+/-- file names are unique within the trash directory -/
+def TrashNamesUnique (d : Dir) : Prop := ∀ f ∈ d.trash, ∀ g ∈ d.trash, f.compound = g.compound → f.key = g.key → f = g
+
+/-- **unassigned_unsearchable**: for every directory state (simple and compound shards, tombstones, renamed
+    repositories, any trash of simple shards), every assigned list, clock and shard-merging setting, no repository
+    outside the assigned list is alive in any file of the index directory after `cleanup` -/
+theorem unassigned_unsearchable (d : Dir) (A : List Nat) (now : Int) (m : Bool) (H1 : TrashSimple d) (H2 : TrashNamesUnique d)
+    (id : Nat) (hid : A.contains id = false) : searchable (cleanup d A now m).index id = false := by
+  cases hsr : searchable (cleanup d A now m).index id
+  · rfl
+  exfalso
+  obtain ⟨c, k, hal⟩ := (searchable_iff _ _).mp hsr
+  -- name the phases
+  have e : (cleanup d A now m).index =
+      (phase5 now m
+        (phase4 A (phase1 now (getShards d.index false) (getShards d.trash true) d).2
+          (phase2 (getShards d.index false) (phase1 now (getShards d.index false) (getShards d.trash true) d).2 (getTombs d.index))
+          (phase3 m (getShards d.index false) (phase1 now (getShards d.index false) (getShards d.trash true) d).1).1
+          (phase3 m (getShards d.index false) (phase1 now (getShards d.index false) (getShards d.trash true) d).1).2).2
+        (phase4 A (phase1 now (getShards d.index false) (getShards d.trash true) d).2
+          (phase2 (getShards d.index false) (phase1 now (getShards d.index false) (getShards d.trash true) d).2 (getTombs d.index))
+          (phase3 m (getShards d.index false) (phase1 now (getShards d.index false) (getShards d.trash true) d).1).1
+          (phase3 m (getShards d.index false) (phase1 now (getShards d.index false) (getShards d.trash true) d).1).2).1).index := rfl
+  rw [e] at hal
+  generalize hi0 : getShards d.index false = index0 at hal
+  generalize ht0 : getShards d.trash true = trash0 at hal
+  have hinI : ∀ e ∈ index0, ∀ s ∈ e.2, s.inTrash = false := by
+    intro e he s hs; rw [← hi0] at he; exact (getShards_sound d.index false e he s hs).2.1
+  have hinT : ∀ e ∈ trash0, ∀ s ∈ e.2, s.inTrash = true := by
+    intro e he s hs; rw [← ht0] at he; exact (getShards_sound d.trash true e he s hs).2.1
+  have p1 := phase1_facts now index0 trash0 d hinT
+  generalize phase1 now index0 trash0 d = P1 at hal p1
+  have p3 := phase3_facts m index0 P1.1 hinI
+  generalize phase3 m index0 P1.1 = P3 at hal p3
+  -- restoring is safe: a trashed shard recorded for an assigned repository lists only that repository alive
+  have hsafe : ∀ e ∈ P1.2, A.contains e.1 = true → ∀ s ∈ e.2, SafeAt A d.trash s.compound s.key := by
+    intro e he hA s hs f hf hb a ha
+    have he0 : e ∈ getShards d.trash true := by rw [ht0]; exact p1.2.2 e he
+    obtain ⟨_, _, f0, hf0, hb0, ha0⟩ := getShards_sound d.trash true e he0 s hs
+    rw [sameBase_iff] at hb hb0
+    have : f = f0 := H2 f hf f0 hf0 (hb.1.trans hb0.1.symm) (hb.2.trans hb0.2.symm)
+    subst this
+    rw [H1 f hf a e.1 ha ha0]; exact hA
+  have p4 := phase4_facts A P1.2 (phase2 index0 P1.2 (getTombs d.index)) P3.1 P3.2 d.trash
+    (by rw [p3.2.1]; exact p1.2.1) hsafe
+  generalize phase4 A P1.2 (phase2 index0 P1.2 (getTombs d.index)) P3.1 P3.2 = P4 at hal p4
+  have p5 := phase5_facts now m P4.2 P4.1
+  -- alive at the end ⇒ alive at that basename all the way back
+  have a4 : AliveAt P4.1.index id c k := p5.1 id c k hal
+  have a3 : AliveAt P3.1.index id c k := p4.1 id hid c k a4
+  have a1 : AliveAt P1.1.index id c k := p3.1 id c k a3
+  rw [p1.1] at a1
+  obtain ⟨e0, he0, hkey, s, hs, hsc, hsk, _⟩ := getShards_complete d.index false id c k a1
+  rw [hi0] at he0
+  cases hc : consistentRepoName e0.2
+  · -- inconsistently named: phase 3 took it out of the index
+    have := p3.2.2.1 e0 he0 hc s hs
+    rw [hkey, hsc, hsk] at this
+    exact this a3
+  · -- consistently named and not assigned: still in the map for phase 5
+    have h3 : e0 ∈ P3.2 := by rw [p3.2.2.2]; exact List.mem_filter.mpr ⟨he0, hc⟩
+    have h4 : e0 ∈ P4.2 := p4.2 e0 h3 (by rw [hkey]; exact hid)
+    have := p5.2 e0 h4 s hs
+    rw [hkey, hsc, hsk] at this
+    exact this hal
+
+/-- the executable statement agrees: `unassignedGone` finds nothing -/
+theorem unassignedGone_none (d : Dir) (A : List Nat) (now : Int) (m : Bool) (H1 : TrashSimple d) (H2 : TrashNamesUnique d) :
+    unassignedGone d (cleanup d A now m) A = none := by
+  unfold unassignedGone
+  rw [List.find?_eq_none]
+  intro id _
+  cases hA : A.contains id
+  · simp [unassigned_unsearchable d A now m H1 H2 id hA]
+  · simp
+
+/-! ### the full statement is false on the model: a compound shard that still holds assigned repositories is deleted -/
+
+/-- DESIGN §8 / known finding C32-compound-shard-deleted-whole, shard merging off: compound {1,2,3}, assigned {1,2} -/
+def w1 : Dir := ⟨[⟨true, 1, 96400, [⟨1, 1, false, 1⟩, ⟨2, 2, false, 2⟩, ⟨3, 3, false, 3⟩]⟩], [], 0⟩
+
+theorem assigned_kept_full_false :
+    (cleanup w1 [1, 2] 100000 false).index = [] ∧ checkP w1 [1, 2] 100000 (cleanup w1 [1, 2] 100000 false) = some "assigned-lost-compound-shard-deleted" := by
+  decide
+
+/-- … while with shard merging on the unassigned repository is tombstoned and the assigned ones stay -/
+theorem compound_tombstoned_when_merging :
+    (cleanup w1 [1, 2] 100000 true).index = [⟨true, 1, 100000, [⟨1, 1, false, 1⟩, ⟨2, 2, false, 2⟩, ⟨3, 3, true, 3⟩]⟩] ∧
+    checkP w1 [1, 2] 100000 (cleanup w1 [1, 2] 100000 true) = none := by
+  decide
+
+/-- shard merging on, but the unassigned repository also has a simple shard: the compound shard goes all the same -/
+def w2 : Dir := ⟨[⟨true, 1, 96400, [⟨1, 1, false, 1⟩, ⟨3, 3, false, 3⟩]⟩, ⟨false, 30, 96400, [⟨3, 3, false, 0⟩]⟩], [], 0⟩
+
+theorem assigned_kept_full_false_merging_on :
+    checkP w2 [1] 100000 (cleanup w2 [1] 100000 true) = some "assigned-lost-compound-shard-deleted" := by
+  decide
+
+/-- known finding C32-restore-overwrites-same-basename -/
+def w4 : Dir := ⟨[⟨false, 10, 96400, [⟨1, 1, false, 0⟩]⟩], [⟨false, 10, 92800, [⟨2, 1, false, 0⟩]⟩], 0⟩
+
+theorem restore_overwrites_same_basename :
+    checkP w4 [1, 2] 100000 (cleanup w4 [1, 2] 100000 true) = some "assigned-lost-basename-collision" := by
+  decide
+
+/-! non-vacuity: the hypotheses of `unassigned_unsearchable` hold of a state with a fresh, an old and a conflicting
+    trash entry, a compound shard with a tombstone and a renamed repository, and the cleanup does something -/
+def exDir : Dir :=
+  ⟨[⟨true, 1, 96400, [⟨1, 1, false, 1⟩, ⟨2, 2, false, 2⟩, ⟨3, 3, true, 3⟩]⟩, ⟨false, 40, 96400, [⟨4, 4, false, 0⟩]⟩,
+    ⟨false, 140, 96400, [⟨4, 14, false, 0⟩]⟩, ⟨false, 50, 1000, [⟨5, 5, false, 0⟩]⟩],
+   [⟨false, 60, 99990, [⟨6, 6, false, 0⟩]⟩, ⟨false, 70, 10000, [⟨7, 7, false, 0⟩]⟩, ⟨false, 51, 99990, [⟨5, 5, false, 0⟩]⟩], 2⟩
+
+example : TrashSimple exDir ∧ TrashNamesUnique exDir := by
+  constructor
+  · intro f hf a b ha hb
+    simp only [exDir, List.mem_cons, List.mem_nil_iff, or_false] at hf
+    rcases hf with rfl | rfl | rfl <;> simp [aliveIn] at ha hb <;> omega
+  · intro f hf g hg h1 h2
+    simp only [exDir, List.mem_cons, List.mem_nil_iff, or_false] at hf hg
+    rcases hf with rfl | rfl | rfl <;> rcases hg with rfl | rfl | rfl <;> simp_all
+
+example : (cleanup exDir [1, 3, 6, 7] 100000 true) =
+    ⟨[⟨false, 60, 99990, [⟨6, 6, false, 0⟩]⟩, ⟨true, 1, 100000, [⟨1, 1, false, 1⟩, ⟨2, 2, true, 2⟩, ⟨3, 3, false, 3⟩]⟩],
+     [⟨false, 50, 100000, [⟨5, 5, false, 0⟩]⟩], 0⟩ := by decide
 
 end ZoektModel.C32
